@@ -61,7 +61,10 @@ class Fam:
 
     def sig(self, b):
         if b.id not in self._sig:
-            self._sig[b.id] = codec.full_sig(b, self.prog, self.cg)
+            # private FREE functions of pilota::thrift that a codec method delegates to (a shared `split_checked(trans, n)?`)
+            # are spliced in first; inherent helper methods are followed by the signature itself (enter / leave tokens)
+            b2 = mirlib.inline_calls(b, lambda cs, callee: callee.kind == 'Fn' and callee.vis != 'Public' and callee.crate == 'pilota' and (callee.key.startswith('thrift::') or callee.key.startswith('<thrift::')) and not callee.impl_trait)
+            self._sig[b.id] = codec.full_sig(b2, self.prog, self.cg)
         return self._sig[b.id]
 
     def io(self, b, keep_conv=False):
@@ -186,6 +189,27 @@ def header_array_layout(w):
 
 
 # ------------------------------------------------------------------------------------------------ R01.e
+def zc_counters(fam):
+    """the private field(s) that count zero-copied payload bytes: what the `zero_copy_len()` accessor of the family's
+    length passes returns (whatever the field is called)"""
+    out = {'zero_copy_len'}
+    for lens in fam.LEN:
+        b = lens.get('zero_copy_len')
+        if b is None:
+            continue
+        e = b.expr_local(0)
+        for x in subexprs(e):
+            if x and x[0] == 'field' and isinstance(x[2], str):
+                out.add(x[2])
+    return out
+
+
+def zc_tokens(fam):
+    cnt = zc_counters(fam)
+    return lambda t: (t[0] == 'w' and t[1] == 'zc') or (t[0] == 'if' and 'zero_copy' in t[1]) or (t[0] == 'set' and t[1] in cnt) or \
+        (t[0] == 'cmp' and (t[2] in (4096, 1024, 'ZERO_COPY_THRESHOLD') or str(t[2]).endswith('ZERO_COPY_THRESHOLD')))
+
+
 ZC_TOKENS = lambda t: (t[0] == 'w' and t[1] == 'zc') or (t[0] == 'if' and 'zero_copy' in t[1]) or (t[0] == 'set' and t[1] == 'zero_copy_len') or \
     (t[0] == 'cmp' and (t[2] in (4096, 1024, 'ZERO_COPY_THRESHOLD') or str(t[2]).endswith('ZERO_COPY_THRESHOLD')))
 
@@ -224,8 +248,8 @@ def two_writers(rep, rule, fam):
         conv = fam.name == 'binary_unsafe'
         iw = fam.io(w, conv)
         il = codec.collapse([t for t in fam.io(l, conv) if t != ('io', 'zc')])
-        a = semantic_set(sw, ZC_TOKENS)
-        b = semantic_set(sl, ZC_TOKENS)
+        a = semantic_set(sw, zc_tokens(fam))
+        b = semantic_set(sl, zc_tokens(fam))
         if fam.name == 'binary_unsafe':
             # the LinkedBytes impl re-derives its window after a zero-copy insert
             # cursor / window / transport fields, found by what is done to them (cursor discipline has its own rules, R11.b-d)
